@@ -249,6 +249,12 @@ def r3_2(ctx: Ctx) -> None:
                                 if isinstance(use, ast.Name) and use.id == nm and isinstance(use.ctx, ast.Load):
                                     par_ok = any(isinstance(p, (ast.JoinedStr, ast.FormattedValue)) and any(x is use for x in ast.walk(p)) for p in ast.walk(u.node)) \
                                         or any(isinstance(p, ast.IfExp) and any(x is use for x in ast.walk(p.test)) and isinstance(p.body, (ast.JoinedStr, ast.Constant)) for p in ast.walk(u.node))
+                                    # the same choice written as a statement: `if t > 0: s = f"..."` / `else: s = "..."`
+                                    par_ok = par_ok or any(
+                                        isinstance(p, ast.If) and any(x is use for x in ast.walk(p.test)) and all(
+                                            isinstance(st, ast.Assign) and all(isinstance(t, ast.Name) for t in st.targets)
+                                            and isinstance(st.value, (ast.JoinedStr, ast.Constant)) for st in p.body + p.orelse)
+                                        for p in ast.walk(u.node))
                                     if not par_ok:
                                         log_only = False
                 ctx.record("R3.2", ctx.key(fn, f"arithmetic/ordering on timestamps: {unparse(bad)[:50]}"), fn.loc(bad), log_only,
